@@ -473,6 +473,7 @@ impl<Y: Sys> Hist<Y> {
             if !ents.is_empty() {
                 st.knowledge_sets += 1;
                 st.states += ents.len() as u64;
+                st.pending_states += ents.iter().filter(|e| Y::pending(&e.s) > 0).count() as u64;
                 st.max_states_per_k = st.max_states_per_k.max(ents.len());
             }
             self.table[m] = ents;
